@@ -21,7 +21,8 @@ TRUSTED = [
     "Coq 8.16.1 kernel and its bytecode VM (vm_compute only on closed witness terms); no native_compute",
     "tools/rs2v.py expression translator + tools/gen/gen_u32s.py (shape check of the two try_from bodies, arms `err` -> true, "
     "`Ok(U32s::from(BigUint::from(value)))` -> false) and coq/lib/Word.v semantics of Rust u32/u64/u128 operators",
-    "extraction: ExtrOcamlBasic + ExtrOcamlZBigInt (positive, N, Z -> zarith), OCaml 4.13.1, zarith 1.12",
+    "extraction: ExtrOcamlBasic + ExtrOcamlZBigInt (positive, N, Z -> zarith) plus one extra directive in extract/ExtractC19.v "
+    "(Z.pow -> zarith power, 0 for a negative exponent), OCaml 4.13.1, zarith 1.12",
     "correspondence harness (harness/src/bin/c19.rs), oracle driver (ocaml/c19.ml), case generator (tools/props/c19.py)",
     "modelled by hand, tied by correspondence only (coq/model/U32s.v): every loop of u32s.rs - add, sub, mul, rem_div, mul_two, "
     "div_two, set_bit/get_bit, Ord, Zero/One, Sum, From<u32>, From<BigUint>, Into<BigUint>, Into<[BFieldElement;N]>, BFieldCodec, "
